@@ -606,7 +606,7 @@ func runC08(r *SeqRun) {
 		r.infra("c08: race-detector build of the harness not found (%s)", race)
 		return
 	}
-	nfree, nplace := tierN(r.Tier, 500, 8000), tierN(r.Tier, 2400, 40000)
+	nfree, nplace := tierN(r.Tier, 500, 50000), tierN(r.Tier, 2400, 200000)
 	nshards := 14
 	var wg sync.WaitGroup
 	for s := 0; s < nshards; s++ {
